@@ -1845,6 +1845,21 @@ impl Sessions {
         Ok(session)
     }
 
+    /// Run the message counter of an authenticated group data message of the given
+    /// sender through the sender's group counter window.
+    ///
+    /// Return `false` if the counter is a duplicate (or too old).
+    #[cfg(feature = "groups")]
+    pub(crate) fn group_ctr_post_recv(
+        &mut self,
+        fab_idx: u8,
+        src_nodeid: u64,
+        msg_ctr: u32,
+    ) -> bool {
+        self.group_ctr_store
+            .post_recv(fab_idx, src_nodeid, msg_ctr)
+    }
+
     /// Attempt to decrypt and accept a group-encrypted message.
     ///
     /// Handles two flavors of incoming group-encrypted packet:
